@@ -557,6 +557,7 @@ type inst struct {
 	walf       wal.Factory
 	recs       map[string]*rec
 	sess       int64 // open session or -1
+	deadSess   int64 // the session closed last, 0 if none
 	nsess      int
 	step       int
 	hist       []int
@@ -615,7 +616,23 @@ func (in *inst) Step(op int) (bool, *ev.Violation) {
 	switch o.kind {
 	case kPut, kEphPut:
 		if o.kind == kEphPut && in.sess < 0 {
-			return false, nil
+			// no live session: the put names the session that was closed last (or one that never existed). It
+			// must be refused with a status and leave no trace: the oracles compare records and raw index keys
+			// with the unchanged model
+			in.step++
+			dead := in.deadSess
+			if dead <= 0 {
+				dead = 999
+			}
+			pr := &proto.PutRequest{Key: o.pk, Value: []byte(fmt.Sprintf("v%d", in.step)), SecondaryIndexes: secIdx(o.set), SessionId: &dead}
+			res, err := in.write(&proto.WriteRequest{Puts: []*proto.PutRequest{pr}})
+			if err != nil {
+				return true, viol("write-error:put", fmt.Sprintf("%s naming dead session %d failed: %v", o.name, dead, err))
+			}
+			if res.Puts[0].Status != proto.Status_SESSION_DOES_NOT_EXIST {
+				return true, viol("write-status:put-dead-session", fmt.Sprintf("%s naming dead session %d returned %v", o.name, dead, res.Puts[0].Status))
+			}
+			break
 		}
 		in.step++
 		val := fmt.Sprintf("v%d", in.step)
@@ -713,6 +730,7 @@ func (in *inst) Step(op int) (bool, *ev.Violation) {
 				delete(in.recs, pk)
 			}
 		}
+		in.deadSess = in.sess
 		in.sess = -1
 	}
 	in.hist = append(in.hist, op)
